@@ -33,7 +33,10 @@
                               fetch that resolves them and the entity fetches of the position (which earlier sources are
                               asked for which representation fields -- several for @requires inputs of another
                               subgraph --, subgraph, representation fields), nested to any depth; the root
-                              [__typename] answered by the gateway itself; execution and
+                              [__typename] answered by the gateway itself; [PAbs]: a field resolved per RUNTIME
+                              type (interface / union positions): the client's and the source's selections verbatim
+                              and one plan tree per concrete object type over the selections flattened at that type
+                              ([gmerge]: the fields of one response key merged), [tv4_static_b]; execution and
                               validator (ProofsPlan3*.v); [fuel_bound] fuel that always suffices without spreads
    Examples: Examples.v, ExamplesWf.v, ExamplesList.v, ExamplesAbstract.v, ExamplesPlan.v, ExamplesTv.v, ExamplesTv3.v *)
 From Coq Require Import PeanoNat Lia.
